@@ -124,6 +124,20 @@ def check(tier: str, pid: str = "C17", is_mine=mine) -> int:
                 gen.replay_file(chk, r.workdir / "out.ndjson", "harness.c17", "_judge_starts")
             finally:
                 r.cleanup()
+    if pid == "C17":
+        # errors raised while a chain of templates renders carry a position in the template they name (LiquidInherit)
+        from . import tlc
+        consts = {"MaxDepth": "2", "Focus": '"inherit-positions"', "AutoEsc": "FALSE"}
+        r = tlc.run("LiquidInherit", tlc.cfg_text(constants=consts, invariants=["Export"]), tag="inherit-pos",
+                    extra_files={"concrete.json": gen.CONCRETE}, timeout=7000)
+        try:
+            if r.error:
+                chk.machinery_error = r.error
+            else:
+                chk.tlc(r, "chains of depth <= 2 and the fixed three-level chains of LiquidInherit: errors name the template their position lies in")
+                gen.replay_file(chk, r.workdir / "out.ndjson", "harness.c08", "judge_positions")
+        finally:
+            r.cleanup()
     chk.cov["exhaustive"] = True
     chk.cov["explanation"] = "exhaustive over the listed alphabets/lengths; corpus mutants are sampled by VERIF_SEED"
     return chk.finish()
